@@ -207,6 +207,33 @@ def run(ctx):
         order_before(ctx, prog, R1, b, 'tokio::fs::rename', 'Manifest::reopen', 'f:rewrite_changes:rename≺reopen')
         n_inst += 1
         # the temp manifest must be opened with fsync enabled (checked by d) and must be the rename source
+        # the live manifest is replaced in ONE step: it is only ever the destination of a rename, never renamed away, removed or
+        # truncated (after seed C04-e: `rename(manifest, backup); rename(tmp, manifest)` leaves an instant without a manifest; a crash
+        # there makes the next open start from an empty log and vacuum every row-set)
+        R10 = 'C04-R10'
+        ctx.rule(R10, 'there is no instant without a manifest: in rewrite_changes the path built from MANIFEST_FILE_NAME is only the '
+                      'destination of tokio::fs::rename - it is never the source of a rename, nor given to remove_file / File::create / '
+                      'OpenOptions with truncate; the replacement of the log is one atomic rename of the completed temp file')
+
+        def live_path(l):
+            for x in origin_locals(b, l, depth=8):
+                for _, kind, p_ in local_defs(b, x):
+                    if kind == 'call' and (p_.get('fn') or '').endswith('Path::join') and \
+                            any(a_['k'] == 'const' and 'MANIFEST_FILE_NAME' in str(a_.get('v', '')) for a_ in p_.get('args', [])):
+                        return True
+            return False
+        rn = [c for c in b.calls if (c.fn or '').endswith('tokio::fs::rename')]
+        away = [c for c in rn if c.args and c.args[0]['k'] != 'const' and live_path(c.args[0]['pl']['l'])]
+        gone = [c for c in b.calls if re.search(r'fs::(remove_file|remove_dir_all|File::create)$|OpenOptions::open$', c.fn or '')
+                and c.args and any(a_['k'] != 'const' and live_path(a_['pl']['l']) for a_ in c.args)]
+        into = [c for c in rn if len(c.args) > 1 and c.args[1]['k'] != 'const' and live_path(c.args[1]['pl']['l'])]
+        if ctx.anchor(R10, 'rewrite_changes: rename onto the live manifest path', into):
+            ctx.ob(R10, 'rewrite_changes·manifest-replaced-in-one-step', not away and not gone,
+                   f'renames onto the live manifest: {[c.bb for c in into]}; renames of it away: {[c.bb for c in away]}; removals / truncations of it: {[c.bb for c in gone]}',
+                   [site(b, c.bb) for c in (away + gone or into)],
+                   what='rewrite_changes moves or removes the live manifest before the new one is in place: a crash in between leaves a store '
+                        'without manifest.json; the next open creates an empty one, replays nothing and vacuums every row-set - all '
+                        'acknowledged data is gone without an error')
     # g. publish after persist: epoch bump / status insert only after Manifest::append
     b = body(CCWCM)
     if b:
